@@ -1,5 +1,64 @@
-(* C13 — lemmas. *)
-From Yv Require Import Common.Base C13.Model C13.Spec.
+(* C13 — collects the lemmas and gives concrete instances of the hypotheses of
+   the property theorems (non-vacuity). *)
+From Yv Require Export Common.Base C13.Model C13.Spec C13.ProofsKern C13.ProofsInv C13.ProofsMain
+  C13.ProofsRef.
 
-Lemma ref_run_nil : ref_run [] = rstate0.
-Proof. reflexivity. Qed.
+Definition ex_prog : list cmd :=
+  [CAsync 2 7%N; CAsync 0 0%N; CWait None; CProbe; CPipe [(1, 1%N); (0, 0%N); (1, 5%N)] false; CProbe;
+   CPipe [(0, 3%N); (1, 0%N)] true; CProbe; CAsync 1 9%N; CWait (Some 7); CProbe; CWait (Some 7); CProbe;
+   CWait (Some 99); CProbe; CWait None].
+
+(* a complete run under a round-robin scheduler *)
+Fixpoint ex_sched (fuel : nat) (tick : nat) (s : state) : list label :=
+  match fuel with
+  | O => []
+  | S fuel =>
+      let ls := LP :: map LC (seq 0 (length (kids (kn s)))) in
+      let fix rot (n : nat) (l : list label) : list label :=
+        match n, l with S n, x :: t => rot n (t ++ [x]) | _, _ => l end in
+      let fix pick (l : list label) : option (label * state) :=
+        match l with
+        | [] => None
+        | x :: t => match step s x with Some s' => Some (x, s') | None => pick t end
+        end in
+      match pick (rot (tick mod length ls) ls) with
+      | Some (l, s') => l :: ex_sched fuel (S tick) s'
+      | None => []
+      end
+  end.
+
+Definition ex_run : list label := ex_sched 400 0 (init ex_prog).
+
+Example ex_run_final :
+  exists s, run (init ex_prog) ex_run = Some s /\ final s = true /\
+            trace s = [(0%N, Some 1); (5%N, Some 1); (3%N, Some 1); (9%N, Some 7); (127%N, Some 7); (127%N, Some 7)]
+            /\ length (kids (kn s)) = 8.
+Proof. eexists. vm_compute. repeat split. Qed.
+
+(* a reachable state in which the parent sits inside select while the child it
+   waits for has already exited: the hypotheses of no_lost_sigchld hold *)
+Example ex_blocked_with_news :
+  exists s t c, run (init [CPipe [(0, 4%N)] false]) [LP; LP; LP; LP; LP; LP; LP; LP; LC 0] = Some s /\
+              at_ s = PWait SBlocked t c /\ has_news (kn s) t /\ caught (kn s) = 1.
+Proof.
+  eexists. eexists. eexists. split; [vm_compute; reflexivity|].
+  split; [reflexivity|]. split; [|reflexivity]. exists 0, 4%N. reflexivity.
+Qed.
+
+(* a non-final reachable state: the hypothesis of progress *)
+Example ex_not_final :
+  exists s, run (init ex_prog) (firstn 20 ex_run) = Some s /\ final s = false.
+Proof. eexists. vm_compute. split; reflexivity. Qed.
+
+(* the order of installation matters: if the parent polled `wait` without
+   having blocked SIGCHLD and installed the handler (a state the invariant
+   excludes), the exit of the child would go unnoticed *)
+Example lost_wakeup_without_handler :
+  let s0 := mkState (mkKern [mkChild (Running 0) 4%N 0] false false false 0) []
+                    (PWait SEnter (TPid 0) (KPipe [] 0%N false true)) 0%N None [] [] in
+  exists s, run s0 [LC 0; LP] = Some s /\ at_ s = PWait SBlocked (TPid 0) (KPipe [] 0%N false true)
+            /\ caught (kn s) = 0 /\ (forall l, step s l = None).
+Proof.
+  eexists. split; [vm_compute; reflexivity|]. repeat split.
+  intros [|[|[|i]]]; reflexivity.
+Qed.
